@@ -108,8 +108,8 @@ func (e *Env) GetValue(symbol string) (reflect.Value, error) {
 
 // GetValueSymbols returns all value symbol in the current scope.
 func (e *Env) GetValueSymbols() []string {
-	symbols := make([]string, 0, len(e.values))
 	e.rwMutex.RLock()
+	symbols := make([]string, 0, len(e.values))
 	for symbol := range e.values {
 		symbols = append(symbols, symbol)
 	}
